@@ -339,6 +339,15 @@ pub fn generate(r: &mut Rng, _opts: &BTreeMap<String, String>, sess: &mut Sessio
         }
         exec_line(sess, "crdt.x.isocheck r0", out);
         exec_line(sess, "crdt.x.integrate r0", out);
+        if !sess.crdt.marked_texts.is_empty() && r.chance(1, 2) {
+            // a replica with an actor id sorting before every other opens its FIRST transaction on a document that
+            // holds marks and rolls it back (actor inserted into and removed from the actor table)
+            out.count("low_actor_rollback_with_marks");
+            exec_line(sess, &format!("crdt.fork r0 lfm 00{:02x}", r.below(200)), out);
+            exec_line(sess, &format!("crdt.put lfm _ m{} i1", hex::encode("tmp")), out);
+            exec_line(sess, "crdt.rollback lfm", out);
+            exec_line(sess, "crdt.state lfm", out);
+        }
         exec_line(sess, "crdt.state r0", out);
     }
     // C30: ids of every object known anywhere, used on both replicas
